@@ -85,7 +85,7 @@ _T = {
 }
 
 _V = os.path.dirname(os.path.dirname(os.path.abspath(__file__)))
-DISABLED = {'C10','C14','C17','C20'}
+DISABLED = {'C20'}
 CHECKS = {k: v for k, v in _T.items()
           if os.path.exists(os.path.join(_V, 'pv', 'checks', k.lower() + '.py')) and k not in DISABLED}
 NOT_APPLICABLE = {}
